@@ -27,6 +27,15 @@ def gen_log(rng, regress=False):
         return c13.gen_log(rng)
     if k < 0.08:
         return b""
+    if k < 0.11:
+        # long lines (link commands, one huge trace line): the last ten lines are tens of KiB, or a single line is
+        lines = [b"x" * rng.choice([10, 300]) + b" head %d" % i for i in range(rng.randint(0, 15))]
+        if rng.random() < 0.5:
+            lines += [b"abcdefgh /-." * (rng.choice([600, 700, 800])) + b" %d" % i for i in range(rng.choice([10, 11]))]
+        else:
+            lines += [b"abcdefgh /-." * 6000 + b" %d" % i for i in range(rng.choice([1, 2]))]
+        out = b"\n".join(lines)
+        return out + (b"\n" if rng.random() < 0.8 else b"")
     lines = []
     n = rng.choice([1, 2, 3, 9, 10, 11, 12, 25, 60])
     for i in range(n):
@@ -118,6 +127,8 @@ def gen_case(rng, mode=None):
                 d = rng.choice([0, 1, 1023, 1024, 1025, 1048575, 1048576, 1048577, 2 * 1048576 + 51200, 10 * 1048576])
                 prev = base + d if rng.random() < 0.5 else max(0, base - d)
                 c["sizes"].append((fn, base, prev if rng.random() < 0.9 else None))
+        c["older"] = rng.random() < 0.5
+        c["prevnorel"] = rng.random() < 0.3
     return c
 
 
@@ -187,10 +198,17 @@ class ReportRunner:
         sizes = []
         if c["hasprev"]:
             prev = os.path.join(root, "2024-01-01.1")
-            os.makedirs(os.path.join(prev, "rel"))
+            norel = c.get("prevnorel", False)
+            os.makedirs(os.path.join(prev, "tmp" if norel else "rel"))
+            if c.get("older", False):
+                # an older invocation with a full release: never what sizes are compared with
+                old = os.path.join(root, "2023-12-31.1")
+                os.makedirs(os.path.join(old, "rel"))
+                for fn, size, psize in c["sizes"]:
+                    sparse(os.path.join(old, "rel", fn), size + 7 * 1048576)
             for fn, size, psize in c["sizes"]:
                 sparse(os.path.join(b, "rel", fn), size)
-                if psize is not None:
+                if psize is not None and not norel:
                     sparse(os.path.join(prev, "rel", fn), psize)
                     if fn != "CHANGELOG" and ".diff." not in fn:
                         sizes.append("%s:%d:%d" % (hexb(fn.encode()), size, psize))
